@@ -17,7 +17,7 @@ pub fn generate(tier: &str, rng: &mut Rng) -> Vec<String> {
     // `decompress` (fixed: "a zero buffer_size no longer divides by zero when (de)compressing")
     for e in [tonic::codec::CompressionEncoding::Gzip, tonic::codec::CompressionEncoding::Deflate, tonic::codec::CompressionEncoding::Zstd] {
         let stream = frame(1, &oracle_compress(e, &[10, 11, 12]));
-        let evs = vec![format!("d{}", &hex(&stream)[1..])];
+        let evs = vec![format!("d{}", hexr(&stream))];
         out.push(DecCase { dir: "req".into(), enc: Some(e), max: None, buf_size: 0, evs, stream, extra_polls: 3 }.line());
     }
     let n = if thorough { 60000 } else { 5000 };
@@ -104,7 +104,7 @@ pub fn generate(tier: &str, rng: &mut Rng) -> Vec<String> {
                     prev = *c;
                 }
                 chunks.push(b[prev..].to_vec());
-                let base: Vec<String> = chunks.iter().map(|c| format!("d{}", &hex(c)[1..])).collect();
+                let base: Vec<String> = chunks.iter().map(|c| format!("d{}", hexr(c))).collect();
                 for dir in ["req", "resp200", "resp503"] {
                     out.push(DecCase { dir: dir.into(), enc: None, max: Some(8), buf_size: 16, evs: base.clone(), stream: b.clone(), extra_polls: 3 }.line());
                     for sp in specials {
